@@ -26,6 +26,10 @@ pub struct Cfg {
     /// the FDT's own carousel: 0 = delay 1 s (default), 1 = delay 0, 2 = interval 0, 3 = interval 2 ticks, 4 = delay 3 ticks
     #[serde(default)]
     pub fdt_carousel: u8,
+    /// 0 = No-Code; 1 = Reed-Solomon GF(2^8), one repair symbol per block of 2 (a transfer has more packets than
+    /// source packets: the tick is target / SOURCE packets and every packet, repair ones included, takes a slot)
+    #[serde(default)]
+    pub fec: u8,
 }
 
 #[derive(Serialize, Deserialize, Clone, Debug)]
@@ -51,7 +55,7 @@ pub struct Case {
 
 fn objects(c: &Cfg) -> Vec<ObjSpec> {
     let mut o = ObjSpec::simple(c.symbols * 4, 1);
-    o.oti = Some(OtiSpec::new(Scheme::NoCode, 4, 2, 0, true));
+    o.oti = Some(if c.fec == 1 { OtiSpec::new(Scheme::Rs28, 4, 2, 1, true) } else { OtiSpec::new(Scheme::NoCode, 4, 2, 0, true) });
     o.prio = 1;
     o.start_ms = c.start.map(|t| t * TICK as i64);
     o.carousel = match c.carousel {
@@ -137,7 +141,9 @@ pub fn run_case(case: &Case, g: &mut G) -> Option<(String, String)> {
         }
         sys.apply(&Ev::Publish);
         let toi = sys.toi_of[0].unwrap();
-        let n = c.symbols.max(1); // packets per transfer (an empty object is one packet)
+        let n = c.symbols.max(1); // SOURCE packets per transfer (an empty object is one packet): the pacing tick is target / n
+        // all packets of a transfer (one repair packet per block of 2 under Reed-Solomon)
+        let n_tot = if c.fec == 1 && c.symbols > 0 { c.symbols + c.symbols.div_ceil(2) } else { n };
         // reference state
         let mut gate_ms: Option<i64> = c.start.map(|t| t * TICK as i64);
         let mut poll_ends: Vec<(usize, u64)> = Vec::new(); // (log index after the drain, now)
@@ -333,16 +339,18 @@ pub fn run_case(case: &Case, g: &mut G) -> Option<(String, String)> {
                     let tg = target.unwrap();
                     // packets due by `now` (strictly-later due times excluded with a 1 us margin)
                     let mut due = 0usize;
-                    for i in 0..n {
-                        let due_ns = cur_start as u128 * 1_000_000 + (i as u128 * tg as u128 * 1_000_000) / n as u128 + 1_000;
-                        if due_ns <= *now as u128 * 1_000_000 + 1_000 {
+                    for i in 0..n_tot {
+                        // flute's tick is target / n rounded to the nanosecond: packet i > 0 may be due a few ns after the
+                        // exact instant, so an exact coincidence of its due time with the poll is not claimed
+                        let due_ns = cur_start as u128 * 1_000_000 + (i as u128 * tg as u128 * 1_000_000) / n as u128 + if i > 0 && tg > 0 { 1_000 } else { 0 };
+                        if due_ns <= *now as u128 * 1_000_000 {
                             due = i + 1;
                         }
                     }
                     if idx_in_transfer < due {
                         return Some((
                             "C14/due-packet-not-sent-at-poll".into(),
-                            format!("poll at {}ms ended with {} of {} packets sent, {} were due (transfer started {}ms, target {}ms)", now, idx_in_transfer, n, due, cur_start, tg),
+                            format!("poll at {}ms ended with {} of {} packets sent, {} were due (transfer started {}ms, target {}ms)", now, idx_in_transfer, n_tot, due, cur_start, tg),
                         ));
                     }
                 }
@@ -424,10 +432,13 @@ pub fn configs() -> Vec<Cfg> {
             for target in 0..6u8 {
                 for symbols in [0usize, 1, 3] {
                     for second in [false, true] {
-                        v.push(Cfg { start, carousel, target, symbols, second, fdt_carousel: 0 });
+                        v.push(Cfg { start, carousel, target, symbols, second, fdt_carousel: 0, fec: 0 });
+                        if !second && target != 0 && start != Some(-2) {
+                            v.push(Cfg { start, carousel, target, symbols, second, fdt_carousel: 0, fec: 1 });
+                        }
                         if !second && target == 0 && start != Some(-2) {
                             for fdt_carousel in 1..5u8 {
-                                v.push(Cfg { start, carousel, target, symbols, second, fdt_carousel });
+                                v.push(Cfg { start, carousel, target, symbols, second, fdt_carousel, fec: 0 });
                             }
                         }
                     }
